@@ -173,6 +173,22 @@ func checkC10(e *RunEnv) *CheckResult {
 		} {
 			cs = append(cs, Case{Base: base, BaseName: "S1", BaseSeed: seedS1(), Probe: true, Steps: append(append([]Step{}, left...), tail...)})
 		}
+		// names with runs of digits (a "natural" order differs from the byte order) and the name "-"
+		for _, set := range [][]string{{"rel-9", "rel-10", "rel-100"}, {"v2", "v10", "v1"}, {"2", "11", "1"}, {"-", "a", "b0"}} {
+			var st []Step
+			for _, n := range set {
+				st = append(st, Run("branch", n))
+			}
+			content := "edit for digit names\n"
+			st = append(st, Write("a", content), Run("add", "a"), Run("commit", "-m", "m"))
+			for _, n := range set {
+				st = append(st, Run("branch", n), Run("switch", n), Run("switch", "main"))
+			}
+			for _, n := range set {
+				st = append(st, Run("branch", "-d", n))
+			}
+			cs = append(cs, Case{Base: base, BaseName: "S1", BaseSeed: seedS1(), Probe: true, Steps: st})
+		}
 		// 300 branches: create, list, rename and delete at both ends and in the middle
 		{
 			var many []Step
